@@ -341,8 +341,25 @@ def run(prog: Program, res: Result, tier: str) -> None:
         if k is None and len(tri[0].args) > 1:
             k = norm(tri[0].args[1])
         ok = k == "1"
-    if ok and "for x_id, y_id in zip(x_ids, y_ids)" in t:
+    # the index arrays of the call feed the pair loop
+    pair_loop = False
+    if tri:
+        holders = [n.targets[0] for n in ast.walk(fb.node)
+                   if isinstance(n, ast.Assign) and n.value is tri[0]]
+        names = [norm(e) for h in holders for e in (
+            h.elts if isinstance(h, ast.Tuple) else [h])]
+        for l in ast.walk(fb.node):
+            if isinstance(l, ast.For) and isinstance(l.iter, ast.Call) and \
+                    call_name(l.iter) == "zip" and [
+                    norm(a_) for a_ in l.iter.args] == names and names:
+                pair_loop = True
+            elif isinstance(l, ast.For) and l.iter is tri[0]:
+                pair_loop = True
+    if ok and pair_loop:
         res.ok("X-CONN", inst, fb.loc())
+    elif ok:
+        res.unrecognised("X-CONN", inst, fb.loc(tri[0]),
+                         "loop over the index pairs of np.triu_indices")
     elif tri:
         res.bad("X-CONN", f"upper triangle k={k}", fb.loc(tri[0]),
                 f"{inst}: np.triu_indices is called with k={k} (k=0 creates "
@@ -351,8 +368,21 @@ def run(prog: Program, res: Result, tier: str) -> None:
         res.unrecognised("X-CONN", inst, fb.loc(), "no np.triu_indices call: "
                          "pair enumeration not recognised")
     inst = "atoms are created as 0..n-1 from enumerate(atom_types)"
-    if "for i, atom_type in enumerate(atom_types)" in t and \
-            "add_atom(i, atom_type=atom_type)" in t:
+    enum_ok = False
+    for l in ast.walk(fb.node):
+        if isinstance(l, ast.For) and norm(l.iter) == "enumerate(atom_types)" \
+                and isinstance(l.target, ast.Tuple) and len(
+                l.target.elts) == 2:
+            i_, a_ = (norm(e) for e in l.target.elts)
+            if any(isinstance(c, ast.Call) and isinstance(
+                    c.func, ast.Attribute) and c.func.attr == "add_atom"
+                   and c.args and norm(c.args[0]) == i_
+                   and (any(k.arg == "atom_type" and norm(k.value) == a_
+                            for k in c.keywords)
+                        or (len(c.args) > 1 and norm(c.args[1]) == a_))
+                   for c in ast.walk(l)):
+                enum_ok = True
+    if enum_ok:
         res.ok("X-CONN", inst, fb.loc())
     else:
         res.unrecognised("X-CONN", inst, fb.loc(), "enumerate(atom_types) / "
